@@ -7,7 +7,7 @@ ID = "C10"
 BOUNDS = {
     "quick": "tip argument: a single value out of {unbounded symbolic int, every Tip member, Tip.Any, 2.5, None, '1'} or a list / tuple / set / generator of "
              "length 0..2 whose elements are each one of {unbounded symbolic int, T1, T3, T8, Tip.Any, 2.5, None}; entry points aspirate_well, dispense_well, "
-             "transfer(tip=...) and the EVO commands evo_aspirate / evo_dispense / evo_wash with tips lists of length 1..2 (symbolic ints and Tip members); for list / tuple collections an earlier call in the same process with one of six other collections ([T3], [4], [T1,T4], [1,8], [1,2], [1,2.0]); EVO command volumes include 0",
+             "aspirate / dispense of three wells in one call, transfer(tip=...) and the EVO commands evo_aspirate / evo_dispense / evo_wash with tips lists of length 1..2 (symbolic ints and Tip members); for list / tuple collections an earlier call in the same process with one of six other collections ([T3], [4], [T1,T4], [1,8], [1,2], [1,2.0]); EVO command volumes include 0",
     "thorough": "sequences up to length 3, both devices for transfer, EVO tips lists up to length 3",
 }
 OUTSIDE = "longer sequences (the chain int_to_tip partitions ALL integers into 9 classes per element, so element values are not bounded)"
@@ -30,6 +30,9 @@ def shards(tier):
         out.append(dict(part="well", ep=ep, shape="gen", n=2))
     for dev in ("evo",) if tier == "quick" else ("evo", "fluent"):
         out.append(dict(part="transfer", dev=dev))
+    for dev in ("evo", "fluent"):
+        for call in ("aspirate", "dispense"):
+            out.append(dict(part="transfer", dev=dev, call=call))
     for cmd in ("evo_aspirate", "evo_dispense", "evo_wash"):
         for n in range(1, L + 1):
             out.append(dict(part="evo", cmd=cmd, n=n))
@@ -94,7 +97,13 @@ def scenario(ctx, p):
         kinds = [ctx.choose(f"e{i}", ["sym", "T3", 2.5]) for i in range(2)]
         elems = [mk_elem(ctx, k, f"t{i}") for i, k in enumerate(kinds)]
         c.update(wl=wl, kinds=kinds, elems=elems, single=False)
-        wl.transfer(A, ["A01", "B01"], B, ["A01", "B02"], [150.0, 20.0], tip=elems)
+        call = p.get("call", "transfer")
+        if call == "transfer":
+            wl.transfer(A, ["A01", "B01"], B, ["A01", "B02"], [150.0, 20.0], tip=elems)
+        elif call == "aspirate":   # one high-level call addressing several wells: every record carries the mask
+            wl.aspirate(A, ["A01", "B01", "A02"], [10.0, 0.0, 20.0], tip=elems if ctx.choose("cont", ["list", "tuple"]) == "list" else tuple(elems))
+        else:
+            wl.dispense(B, ["A01", "B01", "A02"], [10.0, 5.0, 20.0], tip=elems)
         return wl
     # EVO commands
     wl = ns.EvoWorklist(max_volume=1000)
